@@ -36,6 +36,17 @@ Uci::Uci() : search(nullptr), position(), quit(false), options(), polyglot(), po
     });
 }
 
+Uci::~Uci()
+{
+    finish_search();
+}
+
+void Uci::finish_search()
+{
+    if (search) search->stop();
+    if (search_thread.joinable()) search_thread.join();
+}
+
 void Uci::loop()
 {
     sync_cout << "Chess engine by Adam Jedrych"
@@ -88,6 +99,9 @@ void Uci::loop()
             sync_cout << "Unknown command" << sync_endl;
         }
     }
+
+    // quit or end of input: the search thread must not outlive this object
+    finish_search();
 }
 
 bool Uci::uci_command(std::istringstream& /* istream */)
@@ -303,10 +317,10 @@ bool Uci::go_command(std::istringstream& istream)
         }
     }
 
+    finish_search();
     search = std::make_shared<Search>(position, limits, scorer, ttable);
 
-    std::thread search_thread(start_searching, this);
-    search_thread.detach();
+    search_thread = std::thread(start_searching, this);
 
     return true;
 }
